@@ -507,6 +507,25 @@ func genCase(t *rapid.T) Case {
 			pool[i][j] = keyVal(t, kinds[j], fmt.Sprintf("p%d_%d", i, j))
 		}
 	}
+	// two float partition values that differ only beyond float32 precision / in the last bits (or two large ints next
+	// to each other) are two partitions
+	for j := 0; j < npc; j++ {
+		if (kinds[j] == 2 || kinds[j] == 1) && npool >= 2 && rapid.IntRange(0, 2).Draw(t, "nearpair") == 0 {
+			if kinds[j] == 2 {
+				pr := rapid.SampledFrom([][2]float64{{40000001, 40000002}, {16777216, 16777217}, {0.1, 0.10000000001}, {0.3, 0.30000000000000004}, {1700000000000, 1700000000001}, {1e15, 1e15 + 1}}).Draw(t, "nearf")
+				pool[0][j], pool[1][j] = gen.Float(pr[0]), gen.Float(pr[1])
+			} else {
+				pr := rapid.SampledFrom([][2]int64{{9007199254740992, 9007199254740993}, {1790403587000000001, 1790403587000000002}, {40000001, 40000002}}).Draw(t, "neari")
+				pool[0][j], pool[1][j] = gen.Int64(pr[0]), gen.Int64(pr[1])
+			}
+			for x := 0; x < npc; x++ {
+				if x != j {
+					pool[1][x] = pool[0][x]
+				}
+			}
+			break
+		}
+	}
 	allowMissing := !pbt.Open("C14", "missing-value")
 	n := rapid.SampledFrom([]int{0, 6, 12, 6}).Draw(t, "nrows_base") + rapid.IntRange(0, 28).Draw(t, "nrows")
 	for i := 0; i < n; i++ {
@@ -559,6 +578,8 @@ func tupleKey(cols []string, r gen.Row) string {
 			sb.WriteString("N;")
 		case v.K == "str":
 			fmt.Fprintf(&sb, "s%d:%s;", len(v.S), v.S)
+		case v.K == "int" || v.K == "int64":
+			fmt.Fprintf(&sb, "%s:%d;", v.K, v.I) // exact: neighbours above 2^53 are different partitions
 		default:
 			f, _ := v.Num()
 			fmt.Fprintf(&sb, "%s:%v;", v.K, f)
